@@ -257,6 +257,7 @@ fn eval_quantity(
                 Expr::Const { ref value } => {
                     let value = value
                         .to_int()
+                        .filter(|v| left.iter().all(|(_, p)| p.checked_mul(*v).is_some()))
                         .ok_or_else(|| "RHS of `^` is too big".to_string())?;
                     Ok(left.pow(value))
                 }
@@ -265,8 +266,10 @@ fn eval_quantity(
                     ref expr,
                 }) => {
                     if let Expr::Const { ref value } = **expr {
-                        let value = -value
+                        let value = value
                             .to_int()
+                            .and_then(|v| v.checked_neg())
+                            .filter(|v| left.iter().all(|(_, p)| p.checked_mul(*v).is_some()))
                             .ok_or_else(|| "RHS of `^` is too big".to_string())?;
                         Ok(left.pow(value))
                     } else {
